@@ -138,27 +138,6 @@ fn eval_rhs(rhs: &Rhs, t: f64, y: &[C64]) -> Vec<C64> {
     }
 }
 
-trait Scalar: nalgebra::ComplexField<RealField = f64> + Copy {
-    fn to_c(self) -> C64;
-    fn of_c(c: C64) -> Self;
-}
-impl Scalar for f64 {
-    fn to_c(self) -> C64 {
-        C64::new(self, 0.0)
-    }
-    fn of_c(c: C64) -> f64 {
-        c.re
-    }
-}
-impl Scalar for C64 {
-    fn to_c(self) -> C64 {
-        self
-    }
-    fn of_c(c: C64) -> C64 {
-        c
-    }
-}
-
 struct Shared {
     rhs: Rhs,
     calls: i64,
